@@ -334,6 +334,12 @@ fn pie_main(args: &[String]) {
       if let Err(f) = run_violation(&prog, &h, expect, prop, ob) { emit(&f, format!("pie-case --violation {}", ob), format!("program {:?} history {:?}", prog, h)); found += 1; }
     }
   }
+  if only_index.is_none() || args.iter().any(|a| a == "--fixed") {
+    for (k, (name, prog, h)) in fixed_cases().into_iter().enumerate() {
+      ran += 1;
+      if let Err(f) = run_case_attributed(&prog, &h) { emit(&f, format!("pie-case --fixed --index 4000000000 # case {} ({})", k, name), format!("program {:?} history {:?}", prog, h)); found += 1; }
+    }
+  }
   if only_index.is_none() || args.iter().any(|a| a == "--session-errors") {
     ran += 1;
     if let Err(f) = session_errors_accumulate() { emit(&f, "pie-case --session-errors --index 4000000000".to_string(), "one session, several builds, a failing checker in the first".to_string()); found += 1; }
